@@ -98,19 +98,39 @@ def lookupTimestamp (tbl : List (List Nat × Option Int)) (k : List Nat) : Optio
   | some e => e.2
   | none => none
 
-def parseEnv12 : List String → Option Env
-  | [a, b, n, l, snd, src, slf, cid, tvp, mbt, vp, ts] => do
+/-- `-` or `hex(key text):hex(signature text):hex(message):0|1,…`: what `Key.from_encoded_key(k).verify(s, m)` answers on the
+triples that occur in the program (1: it returns, 0: it raises `ValueError`) — the instance of the model's parameter
+`Hashes.checkSig` for this run; a triple that is not listed does not verify -/
+def parseSignatures (w : String) : Option (List ((List Nat × List Nat × List Nat) × Bool)) :=
+  if w == "-" then some []
+  else (w.splitOn ",").mapM fun e =>
+    match e.splitOn ":" with
+    | [k, s, m, v] => do
+      let key ← hexToString k
+      let sig ← hexToString s
+      let msg ← parseHex m
+      pure ((codes key, codes sig, msg), v == "1")
+    | _ => none
+
+def lookupSignature (tbl : List ((List Nat × List Nat × List Nat) × Bool)) (k s m : List Nat) : Bool :=
+  match tbl.find? (fun e => e.1 == (k, s, m)) with
+  | some e => e.2
+  | none => false
+
+def parseEnv13 : List String → Option Env
+  | [a, b, n, l, snd, src, slf, cid, tvp, mbt, vp, ts, sg] => do
     let tbl ← parseVotingPower vp
     let tst ← parseTimestamps ts
+    let sgt ← parseSignatures sg
     pure { amount := ← parseInt a, balance := ← parseInt b, now := ← parseInt n, level := ← parseInt l,
            sender := codes (← hexToString snd), source := codes (← hexToString src),
            self := codes (← hexToString slf), chainId := codes (← hexToString cid),
            totalVotingPower := ← parseInt tvp, minBlockTime := ← parseInt mbt, votingPower := lookupPower tbl,
-           readTimestamp := lookupTimestamp tst, hashes := execHashes }
+           readTimestamp := lookupTimestamp tst, hashes := { execHashes with checkSig := lookupSignature sgt } }
   | _ => none
 
 def parseEnv (ws : List String) : Option Env :=
-  if ws.length = 11 then parseEnv12 (ws ++ ["-"]) else parseEnv12 ws
+  parseEnv13 (ws ++ List.replicate (13 - ws.length) "-")
 
 /-- `hash <blake2b|sha256|sha512|keccak|sha3> <hex>` -/
 def handleHash : List String → String
@@ -127,7 +147,7 @@ def handleHash : List String → String
     | none => "bad-op"
   | _ => "bad-op"
 
-/-- `impl|spec <fuel> | <amount balance now level sender source self chain_id total_voting_power min_block_time voting_power [timestamp_texts]> | <program>` -/
+/-- `impl|spec <fuel> | <amount balance now level sender source self chain_id total_voting_power min_block_time voting_power [timestamp_texts [signature_checks]]> | <program>` -/
 def handle (line : String) : String :=
   match words line with
   | "hash" :: rest => handleHash rest
